@@ -1313,3 +1313,238 @@ def replay_payload(model, obligation, builder, kw):
     except Exception as ex:
         return dict(confirmed=True, call='%s(**%s)' % (builder, kw[:200]), detail='raised %r' % (ex,))
     return dict(confirmed=bool(probs), call='%s(**%s)' % (builder, kw[:200]), detail='payload %r: %s' % (pl if len(repr(pl)) < 200 else repr(pl)[:200], probs[:2]))
+
+
+# ---------------------------------------------------------------- C09 replays
+def _qr_for(designator, version, matrix):
+    if matrix:
+        m = tuple(bytearray(bytes.fromhex(r)) for r in matrix)
+        seg = encoder._Segment(bytearray(), 0, 4, None)
+        segs = encoder.Segments()
+        segs.add_segment(seg)
+        return segno.QRCode(encoder.Code(m, version, 1, 0, segs))
+    v = iso.version_name(version)
+    return segno.make('1', version=v, micro=(version < 1), boost_error=False)
+
+
+def replay_raster(model, obligation, designator, kind, scale, border, ckw, opts, matrix, version):
+    import ast
+    import io
+    from . import readers_raster as RR
+    from contracts.c09 import expected_rgba
+    c, o = ast.literal_eval(ckw), ast.literal_eval(opts)
+    qr = _qr_for(designator, version, matrix)
+    size = len(qr.matrix)
+    b = border if border is not None else (2 if qr.is_micro else 4)
+    call = 'segno symbol %s .save(kind=%r, scale=%r, border=%r, **%r, **%r)' % (qr.designator, kind, scale, border, c, o)
+    try:
+        if kind in ('txt', 'ans', 'terminal', 'compact'):
+            out = io.StringIO()
+            if kind in ('terminal', 'compact'):
+                qr.terminal(out=out, border=border, compact=(kind == 'compact'))
+            else:
+                qr.save(out, kind=kind, border=border)
+            grid = {'txt': RR.read_txt, 'ans': RR.read_ansi_terminal, 'terminal': RR.read_ansi_terminal, 'compact': RR.read_compact_terminal}[kind](out.getvalue())
+            probs = RR.check_grid([list(r) for r in qr.matrix], grid, b)
+        else:
+            out = io.StringIO() if kind in ('xbm', 'xpm') else io.BytesIO()
+            qr.save(out, kind=kind, scale=scale, border=border, **c, **o)
+            r = getattr(RR, 'read_' + kind)(out.getvalue())
+            dark = expected_rgba(c['dark'], None) if 'dark' in c else (0, 0, 0, 255)
+            light = expected_rgba(c['light'], None) if 'light' in c else (255, 255, 255, 255)
+            probs = [p for p in RR.check_modules([list(x) for x in qr.matrix], r, int(scale), b, dark, light) if 'requires MAXVAL >= 2' not in p]
+    except Exception as ex:
+        probs = ['raised %r' % (ex,)]
+    return dict(confirmed=bool(probs), call=call, detail='; '.join(probs[:3]) or 'file is well-formed and depicts the symbol')
+
+
+def replay_colourful(model, obligation, designator, version, kind, scale, border, ckw):
+    import ast
+    import io
+    import random
+    from . import readers_raster as RR
+    from contracts import c09
+    c = ast.literal_eval(ckw)
+    qr = _qr_for(designator, version, None)
+
+    class _I:
+        def __init__(self):
+            self.fail = None
+
+        def ground_pass(self, *a, **k):
+            pass
+
+        def ground(self, name, cond, witness=None, **k):
+            self.fail = witness
+    probe = _I()
+    # re-run the same comparison natively with the given options
+    orig_sample, orig_choice, orig_random = random.Random.sample, None, None
+    out = io.BytesIO()
+    try:
+        qr.save(out, kind=kind, scale=scale, border=border, **c)
+    except ValueError as ex:
+        return dict(confirmed=False, detail='refused: %s' % ex)
+    except Exception as ex:
+        return dict(confirmed=True, call='save(kind=%r, **%r)' % (kind, c), detail='raised %r' % (ex,))
+    r = getattr(RR, 'read_' + kind)(out.getvalue())
+    size = len(qr.matrix)
+    b = border if border is not None else (2 if qr.is_micro else 4)
+    fm = _layout.function_map(version)
+    dark = c09.expected_rgba(c['dark'], None) if 'dark' in c else (0, 0, 0, 255)
+    light = c09.expected_rgba(c['light'], None) if 'light' in c else (255, 255, 255, 255)
+    bad = list(r.problems)
+    if r.width == (size + 2 * b) * scale:
+        for y in range(r.height):
+            i = y // scale - b
+            for x in range(r.width):
+                j = x // scale - b
+                if not (0 <= i < size and 0 <= j < size):
+                    opt, fallback = 'quiet_zone', light
+                else:
+                    kind_, val = fm[(i, j)]
+                    bit = qr.matrix[i][j]
+                    if version >= 1 and (i, j) == (8, size - 9):
+                        continue
+                    opt = c09.TYPE_OPTIONS.get((kind_, bit), c09.TYPE_OPTIONS.get((kind_, 0)) if kind_ == _layout.SEPARATOR else None)
+                    fallback = dark if bit else light
+                want = (c09.expected_rgba(c[opt], None) if c[opt] is not None else None) if opt in c else fallback
+                got = r.pixels[y][x]
+                ok = (got[3] == 0) if want is None else (tuple(got) == tuple(want))
+                if not ok and len(bad) < 3:
+                    bad.append('pixel (%d,%d) module (%d,%d) option %s: %r, expected %r' % (x, y, i, j, opt, got, want))
+    else:
+        bad.append('dimensions %dx%d' % (r.width, r.height))
+    return dict(confirmed=bool(bad), call='segno symbol %s .save(kind=%r, scale=%r, border=%r, **%r)' % (qr.designator, kind, scale, border, c), detail='; '.join(bad[:3]) or 'colours as configured')
+
+
+# ---------------------------------------------------------------- C10 replays
+def replay_matrix_to_lines(model, obligation):
+    from segno import utils
+    import random
+    rnd = random.Random(3)
+    w = max(1, int((model or {}).get('width', 5)) % 40)
+    for t in range(300):
+        h = rnd.randrange(1, 6)
+        m = [[rnd.randrange(2) for _ in range(w)] for _ in range(h)]
+        m[0][0] = 1
+        x0, y0, inc = rnd.randrange(-3, 4), rnd.randrange(-3, 4), rnd.choice((1, -1, 2))
+        cover = {}
+        bad = None
+        for (xa, ya), (xb, yb) in utils.matrix_to_lines(m, x0, y0, inc):
+            if ya != yb or not xa < xb:
+                bad = 'segment %r' % (((xa, ya), (xb, yb)),)
+                break
+            r = (ya - y0) // inc if inc else 0
+            for c in range(xa - x0, xb - x0):
+                cover[(r, c)] = cover.get((r, c), 0) + 1
+        want = {(r, c): 1 for r in range(h) for c in range(w) if m[r][c]}
+        if bad or cover != want:
+            return dict(confirmed=True, call='utils.matrix_to_lines(%r, %d, %d, %d)' % (m, x0, y0, inc), detail=bad or 'covered cells differ from the dark modules')
+    return dict(confirmed=False, detail='300 random matrices covered exactly')
+
+
+def replay_vector(model, obligation, designator, version, kind, scale, border, ckw, opts, matrix=None):
+    import ast
+    import io
+    from . import readers_vector as RV
+    c, o = ast.literal_eval(ckw), ast.literal_eval(opts)
+    qr = _qr_for(designator, version, matrix)
+    out = io.StringIO() if kind in ('tex', 'eps') else io.BytesIO()
+    call = 'segno symbol %s .save(kind=%r, scale=%r, border=%r, **%r, **%r)' % (qr.designator, kind, scale, border, c, o)
+    try:
+        qr.save(out, kind=kind, scale=scale, border=border, **c, **o)
+    except Exception as ex:
+        return dict(confirmed=True, call=call, detail='raised %r' % (ex,))
+    vec = {'svg': RV.read_svg, 'eps': RV.read_eps, 'pdf': RV.read_pdf, 'tex': RV.read_tikz}[kind](out.getvalue())
+    b = border if border is not None else (2 if qr.is_micro else 4)
+    dark = RV.parse_color(c['dark'])[:3] if 'dark' in c else None
+    light = RV.parse_color(c['light'])[:3] if c.get('light') is not None else None
+    probs = RV.check_modules([list(r) for r in qr.matrix], vec, scale, b, dark=dark, light=light)
+    if o.get('omitsize'):
+        probs = [p for p in probs if 'page' not in p.lower() or 'cover' in p.lower()]
+    return dict(confirmed=bool(probs), call=call, detail='; '.join(probs[:3]) or 'document paints exactly the dark modules')
+
+
+# ---------------------------------------------------------------- C12 replay (byte comparison of routes, native)
+def replay_routes(model, obligation, kind=None, opts='{}', content='Hello', mk='{}', **kw):
+    import ast
+    import base64
+    import gzip
+    import io
+    import os
+    import re
+    import shutil
+    import tempfile
+    from urllib.parse import unquote_to_bytes
+    if kind in (None, 'seq', 'terminal'):
+        return dict(confirmed=None, detail='route %r: see the witness in the replay file' % kind)
+    o, m = ast.literal_eval(opts), ast.literal_eval(mk)
+    text = kind in ('txt', 'ans', 'xbm', 'xpm', 'tex', 'eps')
+
+    def mask(data):
+        if kind == 'pdf':
+            return re.sub(rb'/CreationDate\(D:[^)]*\)', b'/CreationDate(D:X)', data)
+        if kind == 'eps':
+            return re.sub(r'%%CreationDate: [^\n]*', '%%CreationDate: X', data)
+        if kind == 'tex':
+            return re.sub(r'% Date:[^\n]*', '% Date: X', data)
+        return data
+    qr = segno.make(content, **m)
+    out = io.StringIO() if text else io.BytesIO()
+    qr.save(out, kind=kind, **o)
+    ref = mask(out.getvalue())
+    tmp = tempfile.mkdtemp(prefix='c12p')
+    probs = []
+    try:
+        for ext in (kind, kind.upper()):
+            path = os.path.join(tmp, 'a.' + ext)
+            try:
+                qr.save(path, **o)
+                with open(path, 'r' if text else 'rb', **({'encoding': o.get('encoding', 'utf-8'), 'newline': ''} if text else {})) as fh:
+                    if mask(fh.read()) != ref:
+                        probs.append('file a.%s differs from the stream output' % ext)
+            except Exception as ex:
+                probs.append('save(%r) raised %r' % ('a.' + ext, ex))
+        if kind == 'png':
+            if base64.b64decode(qr.png_data_uri(**o).split(',', 1)[1]) != ref:
+                probs.append('png_data_uri differs')
+        if kind == 'svg':
+            zp = os.path.join(tmp, 'a.svgz')
+            qr.save(zp, **o)
+            if gzip.open(zp).read() != ref:
+                probs.append('svgz differs')
+            uo = {k: v for k, v in o.items() if k not in ('xmldecl', 'nl')}
+            o3 = io.BytesIO()
+            qr.save(o3, kind='svg', xmldecl=False, nl=False, **uo)
+            dec = unquote_to_bytes(qr.svg_data_uri(**uo).partition(',')[2])
+            if dec != o3.getvalue():
+                probs.append('svg_data_uri decodes to %r..., svg document %r...' % (dec[:60], o3.getvalue()[:60]))
+        from segno import cli
+        flags = {'scale': '--scale', 'border': '--border', 'dark': '--dark', 'light': '--light', 'title': '--title', 'desc': '--desc', 'svgid': '--svgid',
+                 'svgclass': '--svgclass', 'lineclass': '--lineclass', 'unit': '--unit', 'svgversion': '--svgversion', 'dpi': '--dpi',
+                 'finder_dark': '--finder-dark', 'data_dark': '--data-dark', 'encoding': '--svgencoding'}
+        switch = {('xmldecl', False): '--no-xmldecl', ('svgns', False): '--no-namespace', ('nl', False): '--no-newline', ('omitsize', True): '--no-size'}
+        argv, ok = [], True
+        for k_, v_ in o.items():
+            if (k_, v_) in switch:
+                argv.append(switch[(k_, v_)])
+            elif k_ in flags:
+                argv += [flags[k_], 'transparent' if v_ is None else str(v_)]
+            else:
+                ok = False
+        if ok:
+            cp = os.path.join(tmp, 'c.' + kind.upper())
+            argv += ['--micro' if m.get('micro') else '--no-micro'] + (['--error', m['error']] if 'error' in m else []) + ['-o', cp, content]
+            try:
+                rc = cli.main(argv)
+            except SystemExit as se:
+                rc = se.code
+            if rc != 0 or not os.path.exists(cp):
+                probs.append('segno %s exited with %r' % (' '.join(argv), rc))
+            else:
+                with open(cp, 'r' if text else 'rb', **({'encoding': o.get('encoding', 'utf-8'), 'newline': ''} if text else {})) as fh:
+                    if mask(fh.read()) != ref:
+                        probs.append('file written by "segno %s" differs from the API output' % ' '.join(argv[:-3]))
+    finally:
+        shutil.rmtree(tmp, ignore_errors=True)
+    return dict(confirmed=bool(probs), call='segno.make(%r, **%r) saved as %s with %r through every route' % (content, m, kind, o), detail='; '.join(probs[:3]) or 'all routes byte-identical')
